@@ -426,7 +426,9 @@ Proof.
   destruct (dbh_read (cs_dbh x1) (b_height b)) as [[hh hv] |]; [ | discriminate ].
   destruct (0 <? b_height b).
   - destruct (dbh_read (cs_dbh x1) (b_height b - 1)) as [[ph pv] |]; [ | discriminate ].
-    destruct (bytes_eqb ph (b_prev b)); [ | discriminate ].
-    destruct (negb _); [ discriminate | ]. inversion Er. reflexivity.
+    destruct (bytes_eqb ph (b_prev b)).
+    + destruct (negb _); [ discriminate | ]. inversion Er. reflexivity.
+    + destruct (dbs_read _ (b_prev b)); [ | discriminate ].
+      destruct (negb _); [ discriminate | ]. inversion Er. reflexivity.
   - destruct (negb _); [ discriminate | ]. inversion Er. reflexivity.
 Qed.
